@@ -37,6 +37,13 @@ int16_t COTmrCreate(CO_TMR *tmr, uint32_t startTicks, uint32_t cycleTicks, CO_TM
     int16_t r = -1; if (N_TCRE < 2) { C_START[N_TCRE] = startTicks; C_CYCLE[N_TCRE] = cycleTicks; C_FUNC[N_TCRE] = func; C_PARA[N_TCRE] = para; r = H_TID[N_TCRE]; }
     N_TCRE++; __CPROVER_assume(r >= -1); return r;
 }
+#if VW_OP >= 9
+/* stored mapping of the PDO through stubs: count H_MAPN, entries H_MAPENT[1..8]; an entry names V_POBJ[i] iff the keys agree */
+uint8_t H_MAPN; _Bool H_MAPN_OK; uint32_t H_MAPENT[9]; _Bool H_MAPENT_OK[9];
+CO_ERR CODictRdByte(CO_DICT *cod, uint32_t key, uint8_t *val) { __CPROVER_assert(cod == &V_NODE.Dict && val != 0, "CODictRdByte requires"); if ((key & 0xFF00) == 0 && H_MAPN_OK) { *val = H_MAPN; return CO_ERR_NONE; } return CO_ERR_OBJ_NOT_FOUND; }
+CO_ERR CODictRdLong(CO_DICT *cod, uint32_t key, uint32_t *val) { __CPROVER_assert(cod == &V_NODE.Dict && val != 0, "CODictRdLong requires"); uint8_t sub = (uint8_t)(key >> 8); if (sub >= 1 && sub <= 8 && H_MAPENT_OK[sub]) { *val = H_MAPENT[sub]; return CO_ERR_NONE; } return CO_ERR_OBJ_NOT_FOUND; }
+CO_OBJ *CODictFind(CO_DICT *cod, uint32_t key) { CO_OBJ *r = 0; for (int i = 0; i < 4; i++) { if (DEV(key) != 0 && DEV(V_POBJ[i].Key) == DEV(key)) { r = &V_POBJ[i]; } } return r; }
+#endif
 #define P (V_NODE.TPdo[H_PN])
 #define R (V_NODE.RPdo[H_PN])
 static uint32_t le(CO_IF_FRM *f, uint8_t pos, uint8_t w) { uint32_t v = 0; for (int k = 0; k < 4; k++) { if (k < w) { v |= (uint32_t)f->Data[(pos + k) & 7] << (8 * k); } } return v; }
@@ -193,6 +200,38 @@ void harness(void)
     __CPROVER_assert(u != 0 ==> V_NODE.Sync.TSync[H_PN] == ts, "no SYNC: no schedule advances");
     if (u == 0) { __CPROVER_assert(0, "REACH:a"); }
     if (u != 0) { __CPROVER_assert(0, "REACH:b"); }
+#elif VW_OP == 9
+    /* CORPdoGetMap: the activated RPDO mapping is exactly the stored one, never more than 8 slots / 8 bytes, every target exists */
+    for (int on = 0; on < 8; on++) { R.Map[on] = 0; R.Size[on] = 0; }
+    R.ObjNum = 0; R.Node = &V_NODE;
+#ifdef VW_MAPN_MAX
+    __CPROVER_assume(!H_MAPN_OK || H_MAPN <= VW_MAPN_MAX);   /* BOUNDED: number of stored mapping entries */
+#endif
+    /* well-formed stored mapping: at most 8 entries, every entry maps at least one byte (bit-wise mapping is not supported) */
+    __CPROVER_assume(!H_MAPN_OK || H_MAPN <= 8);
+    for (int i = 1; i <= 8; i++) { __CPROVER_assume(((uint8_t)H_MAPENT[i] >> 3) >= 1); }
+    CO_ERR e = CORPdoGetMap(V_NODE.RPdo, H_PN);
+    uint32_t bytes = 0, slots = 0; _Bool allok = H_MAPN_OK;
+    for (int i = 1; i <= 8; i++) { if (H_MAPN_OK && i <= H_MAPN) { if (!H_MAPENT_OK[i]) { allok = 0; } uint8_t b = (uint8_t)H_MAPENT[i] >> 3; uint16_t ix = (uint16_t)(H_MAPENT[i] >> 16); bytes += b;
+        slots += (ix >= 2 && ix <= 7 && b > 1) ? b : 1; } }
+    __CPROVER_assert(e == CO_ERR_NONE ==> (R.ObjNum <= 8 && bytes <= 8 && R.ObjNum == slots), "activated RPDO mapping: at most 8 slots and 8 bytes, one slot per dummy byte / mapped object");
+    __CPROVER_assert((e == CO_ERR_NONE && G_K < R.ObjNum && R.Map[G_K & 7] != 0) ==> objidx(R.Map[G_K & 7]) >= 0, "activated RPDO mapping: every target is an existing object");
+    __CPROVER_assert((!allok || bytes > 8) ==> e != CO_ERR_NONE, "a stored mapping that cannot be activated is refused");
+    if (e == CO_ERR_NONE && R.ObjNum == 8 && H_MAPN == 2) { __CPROVER_assert(0, "REACH:a"); }
+    if (e != CO_ERR_NONE) { __CPROVER_assert(0, "REACH:b"); }
+#elif VW_OP == 10
+    for (int on = 0; on < 8; on++) { P.Map[on] = 0; P.Size[on] = 0; }
+    P.ObjNum = 0; P.Node = &V_NODE;
+    for (int n = 0; n < CO_TPDO_N * 8; n++) { V_NODE.TMap[n].Obj = 0; }
+    __CPROVER_assume(!H_MAPN_OK || H_MAPN <= 8);
+    CO_ERR e = COTPdoGetMap(V_NODE.TPdo, H_PN);
+    uint32_t bytes = 0; _Bool allok = H_MAPN_OK;
+    for (int i = 1; i <= 8; i++) { if (H_MAPN_OK && i <= H_MAPN) { if (!H_MAPENT_OK[i]) { allok = 0; } bytes += (uint8_t)H_MAPENT[i] >> 3; } }
+    __CPROVER_assert(e == CO_ERR_NONE ==> (P.ObjNum == H_MAPN && P.ObjNum <= 8 && bytes <= 8), "activated TPDO mapping: the stored count, at most 8 objects and 8 bytes");
+    __CPROVER_assert((e == CO_ERR_NONE && G_K < P.ObjNum) ==> (objidx(P.Map[G_K & 7]) >= 0 && DEV(P.Map[G_K & 7]->Key) == DEV(H_MAPENT[(G_K & 7) + 1]) && P.Size[G_K & 7] == ((uint8_t)H_MAPENT[(G_K & 7) + 1] >> 3)), "activated TPDO mapping: entry k is the object and length stored in sub-index k+1");
+    __CPROVER_assert((!allok || bytes > 8) ==> e != CO_ERR_NONE, "a stored mapping that cannot be activated is refused");
+    if (e == CO_ERR_NONE && P.ObjNum == 3) { __CPROVER_assert(0, "REACH:a"); }
+    if (e != CO_ERR_NONE) { __CPROVER_assert(0, "REACH:b"); }
 #endif
     __CPROVER_assert(0, "REACH:post");
 }
